@@ -122,6 +122,26 @@ CHECKS = {
         text="For each generated expression: expand preserves the value at three generic complex points, the result holds no product or positive integer power of a sum outside function arguments, expanding twice is eq to expanding once, deep=false preserves the value, and on polynomials the result encodes exactly the reference monomial dictionary, with equal polynomials expanding to eq results and unequal ones to non-eq results. Exploration.",
         note="Rational powers of sums are outside the statement's domain and not generated. KF-C09-01 (non-idempotence on sums to powers <= -2 created during expansion) is a listed known finding with a narrow matcher.",
         variants=["main"]),
+    "C11": dict(
+        engine="hy", technique="property-based testing: generated expressions and simultaneous symbol substitution maps (numbers, symbols incl. swaps, expressions mentioning other keys); metamorphic value oracle value(subs(e,m), env) == value(e, env[k -> value(m[k], env)]) for subs/xreplace/msubs/ssubs with cache on and off, plus eq laws",
+        text="For each generated (e, map): all four substitution entry points with both cache settings must return a tree whose value at three generic complex points equals the value of e in the environment where every key is rebound to the value of its image; cached and uncached results must be eq; substituting an absent symbol and the identity map must return an eq expression. Exploration.",
+        note="Keys are symbols (the only keys for which the statement's value semantics is unambiguous); derivative-free expressions. A zoo/nan result is accepted exactly where the reference has a pole.",
+        variants=["main"]),
+    "C16": dict(
+        engine="hy", technique="property-based testing: generated expressions of the parseable fragment plus a table; round trip parse(str(e)) == e (floats: str stable) and metamorphic 'eq variants print identically' (commuted / regrouped / rewritten constructions)",
+        text="For every generated or tabulated expression of the fragment the parser's name tables and the printer share, parse(str(e)) must be eq to e (with doubles: str(parse(str e)) == str e), and constructions of the same value along different paths that the library reports eq must print to the same string. Exploration.",
+        note="Functions whose printed name the parser does not know (kroneckerdelta, levicivita, truncate, conjugate) are outside the statement. KF-C16-02 (power of a reciprocal kept unevaluated by Mul::power_num) is a listed known finding.",
+        variants=["main"]),
+    "C17": dict(
+        engine="hy", technique="property-based testing: reference grammar (own AST -> string printer with random whitespace, redundant parentheses, sign chains, both power operators, implicit multiplication, leading zeros, every float spelling, every name table) against direct construction of the AST through the API",
+        text="parse(s) must be eq to the expression built directly from the generating syntax tree under conventional precedence and associativity; integer literals are base 10, a lone float literal equals Python's float bit for bit, all-integer trees equal their Fraction value; every name of every parser table is exercised. Exploration.",
+        note="Spellings on which conventions disagree (implicit multiplication right of / or **, 1.e3, chained relationals) are not generated.",
+        variants=["main"]),
+    "C44": dict(
+        engine="hy", technique="property-based testing: generated expressions of every class the printers visit and deep towers; validity predicates per printer (XML well-formedness, LaTeX group/delimiter nesting, rectangular Unicode boxes, balanced Julia parentheses) and the parse_sbml(sbml(e)) round trip on the SBML fragment",
+        text="LaTeX, MathML, Unicode, Julia and SBML printers must return or throw a library exception on every generated expression; MathML must parse as XML, LaTeX groups and \\left/\\right pairs must nest, Unicode rows must have equal width, and parse_sbml(sbml(e)) must be eq to e inside the SBML fragment. Exploration.",
+        note="Well-formedness is judged only for names the printers can emit verbatim. KF-C44-04 (latex(FiniteSet) emits bare braces after \\left, pinned by test_printing) and KF-C44-07 are listed known findings.",
+        variants=["main"]),
 }
 
 NOT_APPLICABLE = {}
